@@ -220,8 +220,12 @@ def run_property(prop: str, tier: str, only: Optional[str] = None, jobs: int = 0
             else:
                 path = _write_replay(prop, tier, r, args, rep)
                 violations.append("VIOLATION property=%s replay=%s" % (prop, path))
+    printed = set()
     for fp, k in seen_known.items():
-        known_lines.append("KNOWN-FINDING: property=%s %s [%s]" % (prop, k["what"], fp))
+        if k["fingerprint"] in printed:
+            continue
+        printed.add(k["fingerprint"])
+        known_lines.append("KNOWN-FINDING: property=%s %s [%s]" % (prop, k["what"], k["fingerprint"]))
 
     discharged = [r for r in results if r.get("status") == "discharged"]
     nontrivial = [r for r in discharged if (r.get("paths_reached_assert") or r.get("nontrivial_queries") or 0) >= 2]
